@@ -341,3 +341,15 @@ def from_nucs(prob, names=None):
             "vidx": [int(x) for x in prob.dom_indices_lst], "voff": [int(x) for x in prob.dom_offsets_lst],
             "props": [{"vars": [int(v) for v in pr[0]], "alg": names[pr[1]], "params": [int(x) for x in pr[2]]}
                       for pr in prob.propagators]}
+
+
+STAT_LABELS = ["ALG_BC_NB", "ALG_BC_WITH_SHAVING_NB", "ALG_SHAVING_NB", "ALG_SHAVING_CHANGE_NB", "ALG_SHAVING_NO_CHANGE_NB",
+               "PROPAGATOR_ENTAILMENT_NB", "PROPAGATOR_FILTER_NB", "PROPAGATOR_FILTER_NO_CHANGE_NB", "PROPAGATOR_INCONSISTENCY_NB",
+               "SOLVER_BACKTRACK_NB", "SOLVER_CHOICE_NB", "SOLVER_CHOICE_DEPTH", "SOLVER_SOLUTION_NB"]
+
+
+def user_stats(solver):
+    """The statistics AS RETURNED TO THE USER (get_statistics(), by documented label), in the order the specifications
+    use - not the engine's internal array, whose layout is not part of any property."""
+    d = solver.get_statistics()
+    return [int(d[k]) for k in STAT_LABELS]
